@@ -3,6 +3,8 @@ C27 / C28 — `HInv` is an inductive invariant of the pool model (any callers, a
 -/
 import TdModel.Lemmas.C27d
 
+set_option linter.unusedSimpArgs false
+
 namespace TdModel.C27
 
 theorem hinv_init (m n : Nat) : HInv m (init m n) := by
@@ -16,10 +18,10 @@ theorem hinv_init (m n : Nat) : HInv m (init m n) := by
 
 theorem hinv_step {cfg : Cfg} (hg : Good cfg) {m : Nat} {s s' : State} (a : Action) (hI : HInv m s)
     (h : step cfg s a = some s') : HInv m s' := by
-  obtain ⟨hg1, hg2⟩ := hg
+  obtain ⟨hg1, hg2, hgB, hgT, hgR⟩ := hg
   cases a with
   | start i =>
-    simp only [step] at h
+    simp only [step, markDeadCfg_good hgR, hgB, hgT, if_true] at h
     split at h
     · rename_i x hx
       split at h
@@ -30,7 +32,7 @@ theorem hinv_step {cfg : Cfg} (hg : Good cfg) {m : Nat} {s s' : State} (a : Acti
       · cases h
     · cases h
   | enter i =>
-    simp only [step] at h
+    simp only [step, markDeadCfg_good hgR, hgB, hgT, if_true] at h
     split at h
     · rename_i x hx
       split at h
@@ -56,7 +58,7 @@ theorem hinv_step {cfg : Cfg} (hg : Good cfg) {m : Nat} {s s' : State} (a : Acti
       · cases h
     · cases h
   | mk i =>
-    simp only [step] at h
+    simp only [step, markDeadCfg_good hgR, hgB, hgT, if_true] at h
     split at h
     · rename_i x hx
       split at h
@@ -66,7 +68,7 @@ theorem hinv_step {cfg : Cfg} (hg : Good cfg) {m : Nat} {s s' : State} (a : Acti
       · cases h
     · cases h
   | check i =>
-    simp only [step] at h
+    simp only [step, markDeadCfg_good hgR, hgB, hgT, if_true] at h
     split at h
     · rename_i x hx
       split at h
@@ -88,7 +90,7 @@ theorem hinv_step {cfg : Cfg} (hg : Good cfg) {m : Nat} {s s' : State} (a : Acti
       · cases h
     · cases h
   | cwake i b =>
-    simp only [step] at h
+    simp only [step, markDeadCfg_good hgR, hgB, hgT, if_true] at h
     split at h
     · rename_i x hx
       split at h
@@ -143,7 +145,7 @@ theorem hinv_step {cfg : Cfg} (hg : Good cfg) {m : Nat} {s s' : State} (a : Acti
       · cases h
     · cases h
   | wwake i b =>
-    simp only [step] at h
+    simp only [step, markDeadCfg_good hgR, hgB, hgT, if_true] at h
     split at h
     · rename_i x hx
       split at h
@@ -177,7 +179,7 @@ theorem hinv_step {cfg : Cfg} (hg : Good cfg) {m : Nat} {s s' : State} (a : Acti
       · cases h
     · cases h
   | giveup i ko =>
-    simp only [step] at h
+    simp only [step, markDeadCfg_good hgR, hgB, hgT, if_true] at h
     split at h
     · rename_i x hx
       split at h
@@ -223,7 +225,7 @@ theorem hinv_step {cfg : Cfg} (hg : Good cfg) {m : Nat} {s s' : State} (a : Acti
       · cases h
     · cases h
   | finish i r ko =>
-    simp only [step] at h
+    simp only [step, markDeadCfg_good hgR, hgB, hgT, if_true] at h
     split at h
     · rename_i x hx
       split at h
@@ -272,7 +274,7 @@ theorem hinv_step {cfg : Cfg} (hg : Good cfg) {m : Nat} {s s' : State} (a : Acti
       · cases h
     · cases h
   | ready d =>
-    simp only [step] at h
+    simp only [step, markDeadCfg_good hgR, hgB, hgT, if_true] at h
     split at h
     · rename_i cn hcn
       cases h
@@ -286,12 +288,12 @@ theorem hinv_step {cfg : Cfg} (hg : Good cfg) {m : Nat} {s s' : State} (a : Acti
       · intro c _ _ _; exact hh c
     · cases h
   | die d =>
-    simp only [step] at h
+    simp only [step, markDeadCfg_good hgR, hgB, hgT, if_true] at h
     split at h
     · cases h; exact hinv_markDead hI d
     · cases h
   | cancel i =>
-    simp only [step] at h
+    simp only [step, markDeadCfg_good hgR, hgB, hgT, if_true] at h
     split at h
     · rename_i x hx
       cases h
@@ -314,7 +316,7 @@ theorem hinv_step {cfg : Cfg} (hg : Good cfg) {m : Nat} {s s' : State} (a : Acti
       · intro c _ _ _; exact hh c
     · cases h
   | bg d rel ko =>
-    simp only [step] at h
+    simp only [step, markDeadCfg_good hgR, hgB, hgT, if_true] at h
     split at h
     · rename_i cn hcn
       split at h
